@@ -52,7 +52,7 @@ def make_judges(ctx):
         if ev.op not in STORE_OPS or ev.exc is not None and False:
             return
         try:
-            si = decode_store(ev)
+            si = decode_store(ev, allow_raw=True)       # (a raw store gives the code itself: it saturates like a value with n_frac = 0)
         except Unsupported:
             return
         if si is None or si.is_complex:
@@ -63,7 +63,7 @@ def make_judges(ctx):
         if not (1 <= post.n_word <= 52 and 0 <= post.n_frac <= post.n_word + 8):
             return
         lo, hi = R.code_range(post.signed, post.n_word)
-        sc = F(2) ** post.n_frac
+        sc = F(1) if si.raw else F(2) ** post.n_frac
         sides = [(1 if v * sc > hi + 1 else (-1 if v * sc < lo - 1 else 0)) for v in si.values]
         if not any(sides):
             return
@@ -84,6 +84,8 @@ def make_judges(ctx):
         ctx.judged(('saturate', si.route, kind, mag, 's' if post.signed else 'u', tuple(sorted(set(sides)))), True,
                    {'op': ev.op, 'format': R.dtype_fxp(*post.fmt()), 'input': [_short(v) for v in si.values[:2]], 'codes': [str(k) for k in si.post.codes[:2]]} if ctx.want_sample() and huge else None)
         ctx.floor_hit(('saturate', kind, mag))
+        if si.raw:
+            ctx.floor_hit(('saturate-raw', mag))
     return [wellformed_judge, saturation_judge]
 
 
@@ -97,7 +99,7 @@ def _is_float(c):
 
 
 def floors(tier):
-    return [('saturate', 'int', 'huge'), ('saturate', 'float', 'huge'), ('saturate', 'int', 'moderate'), ('saturate', 'float', 'moderate')]
+    return [('saturate', 'int', 'huge'), ('saturate', 'float', 'huge'), ('saturate', 'int', 'moderate'), ('saturate', 'float', 'moderate'), ('saturate-raw', 'huge'), ('saturate-raw', 'moderate')]
 
 
 # ------------------------------------------------------------------------------------------ workload
@@ -176,6 +178,13 @@ def run_case(case, ctx):
             _try(lambda: Fxp(car, s, w, nf, rounding=r))
             y2 = Fxp(None, s, w, nf, rounding=r)
             _try(lambda: y2.set_val(car))
+        # raw codes of any size (the rarely used raw=True route): python integers around 2^63 and 2^64, far beyond, and just outside the word
+        lo_, hi_ = R.code_range(s, w)
+        for rawv in (big_u, -big_u, 2 ** 64 - 1, 2 ** 64 + rng.randint(0, 99), -(2 ** 64) - 1, sign * (2 ** rng.choice([62, 63, 64, 65, 100]) + rng.randint(-3, 3)), hi_ + 1 + rng.randint(0, 5), lo_ - 1 - rng.randint(0, 5)):
+            _try(lambda: Fxp(rawv, s, w, nf, rounding=r, raw=True))
+            y3 = Fxp(None, s, w, nf, rounding=r)
+            _try(lambda: y3.set_val(rawv, raw=True))
+            _try(lambda: Fxp([rawv, 0], s, w, nf, rounding=r, raw=True))
         # integers next to the 64-bit limits into an object with an integer bias
         for v2, b2 in ((2 ** 63 - 1, -2), (-2 ** 63, 1), (2 ** 63 - 3, -7), (2 ** 63 + 1, 1)):
             _try(lambda: Fxp(v2, s, w, nf, rounding=r, bias=b2))
